@@ -203,6 +203,27 @@ func c16LibraryCase(rt *rapid.T, rec *vt.Rec) {
 		}
 		expected[prefix+lowerFirst(m.goName)] = m
 	}
+	// further registrations on the same server: single methods under explicit names (what the agent's reverse
+	// service uses), new names or re-declarations of names registered above; the last registration of a name decides
+	var aliases []string
+	var exposedOnly []c16Method
+	for _, m := range recvATable {
+		if m.exposed {
+			exposedOnly = append(exposedOnly, m)
+		}
+	}
+	for e := 0; e < rapid.IntRange(0, 2).Draw(rt, "extraRegistrations"); e++ {
+		target := rapid.SampledFrom(exposedOnly).Draw(rt, "extraTarget")
+		rpcName := rapid.SampledFrom([]string{"alias_one", "extra.call", prefix + "extra", "Alias_One"}).Draw(rt, "aliasName")
+		if keys := sortedKeys(expected); len(keys) > 0 && rapid.Bool().Draw(rt, "redeclare") {
+			rpcName = rapid.SampledFrom(keys).Draw(rt, "redeclared")
+		}
+		if err := srv.RegisterMethod(rpcName, recv, target.goName); err != nil {
+			rt.Fatalf("RegisterMethod(%q, %s): %v", rpcName, target.goName, err)
+		}
+		expected[rpcName] = target
+		aliases = append(aliases, rpcName)
+	}
 	call := func(name string, params string, omitParams bool) (*jsonrpc2.Message, []string) {
 		req := &jsonrpc2.Message{ID: json.RawMessage(`7`), Version: "2.0", Request: &jsonrpc2.Request{Method: name}}
 		if !omitParams {
@@ -252,6 +273,11 @@ func c16LibraryCase(rt *rapid.T, rec *vt.Rec) {
 			name = prefix + rapid.SampledFrom([]string{"take", "rec", "Take", "hiddenMethod", "hiddenParam", "ghost", "register", "handle"}).Draw(rt, "helperName")
 		case "random":
 			name = rapid.StringMatching(`[a-zA-Z_.]{0,12}`).Draw(rt, "randomName")
+		}
+		if len(aliases) > 0 && rapid.IntRange(0, 2).Draw(rt, "probeAlias") == 0 {
+			name = rapid.SampledFrom(aliases).Draw(rt, "alias")
+			nameKind = "exact"
+			m = expected[name]
 		}
 		em, callable := expected[name]
 		// parameters
@@ -360,14 +386,14 @@ func c16LibraryCase(rt *rapid.T, rec *vt.Rec) {
 			}
 		}
 	}
-	rec.Case(fmt.Sprintf("lib|%q|%v|%v", prefix, allow, sample), nearMiss > 0 || wrongParams > 0, []string{"lib", "lib:allow:" + allowMode}, func() interface{} {
-		return map[string]interface{}{"level": "library", "prefix": prefix, "allow_list": allow, "registered": sortedKeys(expected), "probes": sample}
+	rec.Case(fmt.Sprintf("lib|%q|%v|%v|%v", prefix, allow, aliases, sample), nearMiss > 0 || wrongParams > 0, []string{"lib", "lib:allow:" + allowMode}, func() interface{} {
+		return map[string]interface{}{"level": "library", "prefix": prefix, "allow_list": allow, "registered_singly_afterwards": aliases, "registered": sortedKeys(expected), "probes": sample}
 	})
 }
 
 func TestC16Library(t *testing.T) {
 	rec := vt.For("C16")
-	rec.Rule("library level: a receiver family (exported/unexported methods, context first or absent, 0-3 parameters of string/int64/bool/struct/slice/pointer, trailing optional pointer, error-only and value+error returns, a method with an unexported parameter type) is registered under a generated prefix and allow-list (incl. allow-listed names that do not exist); generated probes: exact names, Go-case names, upper/lower-case variants, missing/other prefix, suffixes, helper and unexported names, random names; parameters: every arity 0..k+2, every JSON kind per position, absent / null / object / scalar params; oracle (hand-written table): callable <=> prefix+lowerFirst(name) of an exposed method in the allow-list; unknown => -32601 and nothing runs; wrong arity or incompatible JSON kind => -32602 and nothing runs; correct => exactly one invocation with the decoded values; every reply carries the request id and a result or an error; null for a non-pointer position is a don't-care; non-trivial = a near-miss name or wrong parameters on a registered name; distinct by prefix + allow-list + probes")
+	rec.Rule("library level: a receiver family (exported/unexported methods, context first or absent, 0-3 parameters of string/int64/bool/struct/slice/pointer, trailing optional pointer, error-only and value+error returns, a method with an unexported parameter type) is registered under a generated prefix and allow-list (incl. allow-listed names that do not exist), followed by 0-2 RegisterMethod calls that add a name or re-declare a registered one with another method; generated probes: exact names, Go-case names, upper/lower-case variants, missing/other prefix, suffixes, helper and unexported names, random names; parameters: every arity 0..k+2, every JSON kind per position, absent / null / object / scalar params; oracle (hand-written table): callable <=> prefix+lowerFirst(name) of an exposed method in the allow-list; unknown => -32601 and nothing runs; wrong arity or incompatible JSON kind => -32602 and nothing runs; correct => exactly one invocation with the decoded values; every reply carries the request id and a result or an error; null for a non-pointer position is a don't-care; non-trivial = a near-miss name or wrong parameters on a registered name; distinct by prefix + allow-list + probes")
 	rapid.Check(t, func(rt *rapid.T) { c16LibraryCase(rt, rec) })
 }
 
@@ -406,7 +432,7 @@ type rawReply struct {
 
 func TestC16Binary(t *testing.T) {
 	rec := vt.For("C16")
-	rec.Rule("production level: the `vipnode pool` binary built from the working tree is probed over HTTP and over a WebSocket with generated requests: the 10 documented names (vipnode_connect/update/peer/client/host/ping, pool_account/addNode/withdraw/status) with every arity 0..k+2 and every JSON kind per position, and ~35 other names (other exported methods of the registered objects such as closeRemote/numRemotes, case variants, prefixes, foreign modules, random names); oracle: exactly the documented names are callable; everything else is -32601; wrong arity/kinds on a documented name is -32602; every reply carries the request id; pool_status is unchanged by refused probes; non-trivial = a non-documented name or wrong parameters; distinct by (transport, name, arity, kinds)")
+	rec.Rule("production level: the `vipnode pool` binary built from the working tree is probed over HTTP and over a WebSocket with generated requests: the 10 documented names (vipnode_connect/update/peer/client/host/ping, pool_account/addNode/withdraw/status) with every arity 0..k+2 and every JSON kind per position (first an exhaustive grid: every endpoint x position x undecodable JSON kind/value over both transports, then generated combinations), and ~35 other names (other exported methods of the registered objects such as closeRemote/numRemotes, case variants, prefixes, foreign modules, random names); oracle: exactly the documented names are callable; everything else is -32601; wrong arity/kinds on a documented name is -32602; every reply carries the request id; pool_status is unchanged by refused probes; non-trivial = a non-documented name or wrong parameters; distinct by (transport, name, arity, kinds)")
 	p := startPool(t)
 	defer p.stop()
 	defer os.Remove(binPath)
@@ -461,6 +487,57 @@ func TestC16Binary(t *testing.T) {
 	}
 	sort.Strings(derived)
 	idn := 100
+	// exhaustive grid first: every documented endpoint x every position x every JSON kind and sample value that cannot
+	// be decoded into the declared Go type, all other positions well-typed, over both transports: always -32602
+	{
+		match := map[string]string{"string": `"hello"`, "int": `7`, "struct": `{}`}
+		var jks []string
+		for jk := range c16JSON {
+			jks = append(jks, jk)
+		}
+		sort.Strings(jks)
+		grid := 0
+		for _, name := range names {
+			kinds := poolEndpoints[name]
+			for pos := range kinds {
+				for _, jk := range jks {
+					if c16Compatible(kinds[pos], jk) != "no" {
+						continue
+					}
+					for _, v := range c16JSON[jk] {
+						vals := make([]string, len(kinds))
+						for i, k := range kinds {
+							vals[i] = match[k]
+						}
+						vals[pos] = v
+						for _, transport := range []string{"http", "ws"} {
+							idn++
+							body := fmt.Sprintf(`{"jsonrpc":"2.0","id":%d,"method":%q,"params":[%s]}`, idn, name, strings.Join(vals, ","))
+							var replyText string
+							var err error
+							if transport == "http" {
+								replyText, _, err = httpCall(body)
+							} else {
+								replyText, err = wsCall(body)
+							}
+							if err != nil {
+								t.Fatalf("grid probe %s over %s failed: %v", body, transport, err)
+							}
+							var r rawReply
+							if err := json.Unmarshal([]byte(replyText), &r); err != nil || r.Error == nil || r.Error.Code != jsonrpc2.ErrCodeInvalidParams {
+								t.Fatalf("%s over %s: parameter %d of %s is declared %s; a JSON %s there must be answered -32602 and the method not run, got %s", body, transport, pos+1, name, kinds[pos], jk, replyText)
+							}
+							grid++
+							rec.Case(fmt.Sprintf("grid|%s|%s|%d|%s|%s", transport, name, pos, jk, v), true, []string{"binary", "binary:grid"}, func() interface{} {
+								return map[string]interface{}{"level": "binary (exhaustive grid)", "transport": transport, "request": body, "reply": replyText}
+							})
+						}
+					}
+				}
+			}
+		}
+		rec.Extra("binary_grid_probes", grid)
+	}
 	rapid.Check(t, func(rt *rapid.T) {
 		transport := rapid.SampledFrom([]string{"http", "ws"}).Draw(rt, "transport")
 		var name string
@@ -482,10 +559,18 @@ func TestC16Binary(t *testing.T) {
 			shape = kinds
 		}
 		arity := rapid.IntRange(0, len(shape)+2).Draw(rt, "arity")
+		// a third of the probes of a documented name: the right number of parameters, one position of another JSON kind
+		onePos := -1
+		if documented && len(shape) > 0 && rapid.IntRange(0, 2).Draw(rt, "oneWrongPosition") == 0 {
+			arity = len(shape)
+			onePos = rapid.IntRange(0, len(shape)-1).Draw(rt, "wrongPosition")
+		}
 		var vals, jkinds []string
 		for i := 0; i < arity; i++ {
 			jk := ""
-			if i < len(shape) && rapid.IntRange(0, 3).Draw(rt, "matching") > 0 {
+			if onePos >= 0 && i != onePos {
+				jk = map[string]string{"string": "string", "int": "int", "struct": "object"}[shape[i]]
+			} else if onePos < 0 && i < len(shape) && rapid.IntRange(0, 3).Draw(rt, "matching") > 0 {
 				jk = map[string]string{"string": "string", "int": "int", "struct": "object"}[shape[i]]
 			} else {
 				jk = rapid.SampledFrom([]string{"string", "int", "float", "bool", "null", "object", "array"}).Draw(rt, "jsonKind")
